@@ -122,6 +122,10 @@ int read_elf(
     return -1;
   }
 
+  // No section can hold more bytes than the file does.
+  const int file_length = file.get_file_length();
+  const uint64_t max_section_size = file_length > 0 ? file_length : 0;
+
   memset(e_ident, 0, 16);
   n = file.get_bytes(e_ident, 16);
 
@@ -330,6 +334,17 @@ int read_elf(
     //printf("name=%s\n", name);
 
     int is_text = (elf_shdr.sh_flags & SHF_EXECINSTR) != 0 ? 1 : 0;
+    int is_symtab = elf_shdr.sh_type == SHT_SYMTAB && symbols != NULL;
+
+    if ((is_text || is_symtab ||
+         strncmp(name, ".data", 5) == 0 ||
+         strcmp(name, ".vectors") == 0) &&
+        elf_shdr.sh_size > max_section_size)
+    {
+      printf("ELF Error: section %s is bigger than the file\n", name);
+      file.close_file();
+      return -1;
+    }
     if (is_text ||
         strncmp(name, ".data", 5) == 0 ||
         strcmp(name, ".vectors") == 0)
